@@ -8,6 +8,7 @@ import (
 	"reflect"
 	"regexp"
 	"strings"
+	"sync"
 	"testing"
 
 	"github.com/gobwas/glob"
@@ -316,6 +317,18 @@ func (g *gen) c03Route(prefix string) c03Route {
 					rt.capPool[s.Name] = []string{"v1", "a b", "1234"}
 				}
 			}
+			if rng.IntN(3) == 0 {
+				// a second expression for the same wildcard: every expression must hold, whatever their order. The pool holds values
+				// satisfying both, only the first kind, only the second
+				second := []rconfig.ParameterMatcher{{Name: s.Name, Type: "regex", Value: `^[a-z0-9 =]+$`}, {Name: s.Name, Type: "glob", Value: "{v1,1234,k=v,a b,x.y.example.com}"},
+					{Name: s.Name, Type: "regex", Value: `[0-9]`}}[rng.IntN(3)]
+				if rng.IntN(2) == 0 {
+					rt.Params = append(rt.Params, second)
+				} else {
+					rt.Params = append([]rconfig.ParameterMatcher{second}, rt.Params...)
+				}
+				rt.capPool[s.Name] = append(rt.capPool[s.Name], "v1", "1234", "k=v", "a b", "report-1.pdf", "x.y.example.com", "k=1")
+			}
 		} else {
 			switch rng.IntN(3) {
 			case 0:
@@ -507,6 +520,7 @@ func TestC03(t *testing.T) {
 			_ = a.Stop()
 			break
 		}
+		var again []c03Case
 		for _, rl := range rules {
 			for k := 0; k < perRule; k++ {
 				rl.Pick = g.rng.IntN(len(rl.Routes))
@@ -584,8 +598,54 @@ func TestC03(t *testing.T) {
 					r.Violation(c03Signature(cs), fmt.Sprintf("rule %s expected, %q observed for %s %s://%s%s", cs.ExpRule, cs.ObsRule, rq.Method, rq.Scheme, rq.Host, rq.RawPath), cs)
 				case cs.ExpCaps != nil && !reflect.DeepEqual(cs.ExpCaps, nonNil(cs.ObsCaps)):
 					r.Violation("captures-mismatch", fmt.Sprintf("captures %v expected, %v observed for %s", cs.ExpCaps, cs.ObsCaps, rq.RawPath), cs)
+				case strings.Contains(rq.RawPath, "%") && len(again) < 600:
+					// answered as expected when alone: asked again below while other requests are in flight
+					cs.ObsRule, cs.ObsCaps, cs.ObsError = "", nil, ""
+					again = append(again, cs)
 				}
 			}
+		}
+		// the same requests, many at a time: what one request captured belongs to that request alone
+		if len(again) > 0 {
+			var wg sync.WaitGroup
+			next := make(chan c03Case, len(again))
+			for _, cs := range again {
+				next <- cs
+			}
+			close(next)
+			for w := 0; w < 8; w++ {
+				wg.Add(1)
+				go func() {
+					defer wg.Done()
+					for cs := range next {
+						u, perr := url.ParseRequestURI(cs.Req.RawPath)
+						if perr != nil {
+							continue
+						}
+						ctx := newExecCtxURL(cs.Req.Method, cs.Req.Host, u, map[string]string{"X-Forwarded-Proto": cs.Req.Scheme})
+						xerr := safeExecute(a, ctx)
+						cs.ObsRule = ctx.UpstreamHeaders().Get("X-Rule")
+						if xerr != nil {
+							cs.ObsError = xerr.Error()
+							if cs.ObsRule == "" && strings.Contains(cs.ObsError, "encoded slash") {
+								cs.ObsRule = "default"
+							}
+						}
+						if c := ctx.UpstreamHeaders().Get("X-Cap"); c != "" {
+							_ = json.Unmarshal([]byte(c), &cs.ObsCaps)
+						}
+						r.Eval(1)
+						r.Count("requests_repeated_concurrently", 1)
+						switch {
+						case cs.ObsRule != cs.ExpRule:
+							r.Violation("concurrent-requests-disturb-each-other:rule", fmt.Sprintf("rule %s expected (and observed when asked alone), %q observed with other requests in flight for %s", cs.ExpRule, cs.ObsRule, cs.Req.RawPath), cs)
+						case cs.ExpCaps != nil && !reflect.DeepEqual(cs.ExpCaps, nonNil(cs.ObsCaps)):
+							r.Violation("concurrent-requests-disturb-each-other:captures", fmt.Sprintf("captures %v expected (and observed when asked alone), %v observed with other requests in flight for %s", cs.ExpCaps, cs.ObsCaps, cs.Req.RawPath), cs)
+						}
+					}
+				}()
+			}
+			wg.Wait()
 		}
 		_ = a.Stop()
 	}
